@@ -1,5 +1,306 @@
-//! Minimisation of a failing replay file (script ddmin + schedule simplification).
-pub fn main(_args: &[String]) -> i32 {
-    eprintln!("minimise: not implemented yet");
-    2
+//! Minimisation of a failing replay file: script ddmin, argument shrinking, schedule
+//! simplification. A candidate is kept iff the *same property and violation class* recurs; the
+//! exact decision trace of the kept run is recorded, and the result is replayed once more at the
+//! end (in a fresh runner) before it is written.
+use std::time::Instant;
+
+use nucleo_verif_rt::sim::SplitMix;
+
+use crate::exec::{self, Outcome};
+use crate::world_nucleo::{Lie, NucleoScript, UiOp, WOp};
+use crate::{counts_for, AnyScript, ReplayFile};
+
+struct Ctx {
+    property: String,
+    class: String,
+    deadline: Instant,
+    runs: u64,
+}
+
+impl Ctx {
+    fn out_of_time(&self) -> bool {
+        Instant::now() > self.deadline
+    }
+    fn fails(&mut self, script: &AnyScript, trace: Option<Vec<u32>>) -> Option<Outcome> {
+        self.runs += 1;
+        let out = exec::run_one(script.job(), trace);
+        let hit = out.violations.first().is_some_and(|v| counts_for(&v.property, &self.property) && v.class == self.class);
+        hit.then_some(out)
+    }
+    /// try a candidate script: under the old trace (with fallback), then under fresh schedule seeds
+    fn try_script(&mut self, cand: &AnyScript, old_trace: &[u32], fresh: u32) -> Option<Outcome> {
+        if let Some(o) = self.fails(cand, Some(old_trace.to_vec())) {
+            return Some(o);
+        }
+        let mut rng = SplitMix(self.runs ^ 0xA11CE);
+        for _ in 0..fresh {
+            if self.out_of_time() {
+                return None;
+            }
+            let mut c = cand.clone();
+            set_schedule_seed(&mut c, rng.next());
+            if let Some(o) = self.fails(&c, None) {
+                // keep the original seed in the file, the recorded trace is what replays
+                return Some(o);
+            }
+        }
+        None
+    }
+}
+
+fn set_schedule_seed(s: &mut AnyScript, seed: u64) {
+    match s {
+        AnyScript::Nucleo(n) => n.sched.schedule_seed = seed,
+        #[allow(unreachable_patterns)]
+        _ => {}
+    }
+}
+
+fn size(s: &AnyScript) -> usize {
+    serde_json::to_string(s).map(|x| x.len()).unwrap_or(0)
+}
+
+/// all one-step reductions of a script, roughly biggest first
+fn candidates(s: &AnyScript) -> Vec<AnyScript> {
+    match s {
+        AnyScript::Nucleo(n) => nucleo_candidates(n).into_iter().map(AnyScript::Nucleo).collect(),
+        #[allow(unreachable_patterns)]
+        other => crate::minimise_other(other),
+    }
+}
+
+fn shorter(t: &str) -> Option<String> {
+    if t.chars().count() > 1 {
+        let mut c: Vec<char> = t.chars().collect();
+        c.pop();
+        Some(c.into_iter().collect())
+    } else {
+        None
+    }
+}
+
+fn nucleo_candidates(n: &NucleoScript) -> Vec<NucleoScript> {
+    let mut out = Vec::new();
+    // whole writers
+    for w in 0..n.writers.len() {
+        if !n.writers[w].is_empty() {
+            let mut c = n.clone();
+            c.writers[w].clear();
+            out.push(c);
+        }
+    }
+    // halves of the UI script, then single ops
+    let l = n.ui.len();
+    if l >= 4 {
+        for (a, b) in [(0, l / 2), (l / 2, l), (l / 4, 3 * l / 4)] {
+            let mut c = n.clone();
+            c.ui.drain(a..b);
+            out.push(c);
+        }
+    }
+    for i in (0..l).rev() {
+        let mut c = n.clone();
+        c.ui.remove(i);
+        out.push(c);
+    }
+    for w in 0..n.writers.len() {
+        for i in (0..n.writers[w].len()).rev() {
+            let mut c = n.clone();
+            c.writers[w].remove(i);
+            out.push(c);
+        }
+    }
+    // knobs
+    if n.pool_threads > 1 {
+        let mut c = n.clone();
+        c.pool_threads = if n.pool_threads > 2 { 2 } else { 1 };
+        out.push(c);
+    }
+    for (cfg, case, norm) in [(0u8, n.case, n.norm), (n.config, 0, n.norm), (n.config, n.case, 0)] {
+        if (cfg, case, norm) != (n.config, n.case, n.norm) {
+            let mut c = n.clone();
+            c.config = cfg;
+            c.case = case;
+            c.norm = norm;
+            out.push(c);
+        }
+    }
+    if n.sched.p_timer_ppm != 0 {
+        let mut c = n.clone();
+        c.sched.p_timer_ppm = 0;
+        out.push(c);
+    }
+    // arguments
+    for i in 0..l {
+        let mut c = n.clone();
+        let changed = match &mut c.ui[i] {
+            UiOp::Tick { timeout } | UiOp::WaitNotifyTick { timeout } if *timeout != 0 => {
+                *timeout = 0;
+                true
+            }
+            UiOp::Burn { k } if *k > 1 => {
+                *k /= 2;
+                true
+            }
+            UiOp::Reparse { text, .. } => match shorter(text) {
+                Some(t) => {
+                    *text = t;
+                    true
+                }
+                None => false,
+            },
+            UiOp::Quiesce => {
+                c.ui[i] = UiOp::Tick { timeout: 10 };
+                true
+            }
+            UiOp::TickUntilIdle { .. } => {
+                c.ui[i] = UiOp::Tick { timeout: 10 };
+                true
+            }
+            _ => false,
+        };
+        if changed {
+            out.push(c);
+        }
+    }
+    for w in 0..n.writers.len() {
+        for i in 0..n.writers[w].len() {
+            match &n.writers[w][i] {
+                WOp::Extend { items, lie, panic_at } => {
+                    if items.len() > 1 {
+                        for keep in [items.len() / 2, items.len() - 1] {
+                            let mut c = n.clone();
+                            c.writers[w][i] = WOp::Extend {
+                                items: items[..keep.max(1)].to_vec(),
+                                lie: lie.clone(),
+                                panic_at: panic_at.map(|p| p.min(keep.max(1) as u32 - 1)),
+                            };
+                            out.push(c);
+                        }
+                    }
+                    if *lie != Lie::Honest {
+                        let mut c = n.clone();
+                        c.writers[w][i] = WOp::Extend { items: items.clone(), lie: Lie::Honest, panic_at: *panic_at };
+                        out.push(c);
+                        if let Lie::Long(k) = lie {
+                            if *k > 1 {
+                                let mut c = n.clone();
+                                c.writers[w][i] = WOp::Extend { items: items.clone(), lie: Lie::Long(k / 2), panic_at: *panic_at };
+                                out.push(c);
+                            }
+                        }
+                    }
+                    if panic_at.is_some() {
+                        let mut c = n.clone();
+                        c.writers[w][i] = WOp::Extend { items: items.clone(), lie: lie.clone(), panic_at: None };
+                        out.push(c);
+                    }
+                }
+                WOp::PushPanic { texts } => {
+                    let mut c = n.clone();
+                    c.writers[w][i] = WOp::Push { texts: texts.clone() };
+                    out.push(c);
+                }
+                WOp::Burn { k } | WOp::BurnNextFill { k } if *k > 1 => {
+                    let mut c = n.clone();
+                    c.writers[w][i] = match &n.writers[w][i] {
+                        WOp::Burn { .. } => WOp::Burn { k: k / 2 },
+                        _ => WOp::BurnNextFill { k: k / 2 },
+                    };
+                    out.push(c);
+                }
+                WOp::Push { texts } => {
+                    for col in 0..texts.len() {
+                        if let Some(t) = shorter(&texts[col]) {
+                            let mut c = n.clone();
+                            let mut tx = texts.clone();
+                            tx[col] = t;
+                            c.writers[w][i] = WOp::Push { texts: tx };
+                            out.push(c);
+                        }
+                    }
+                }
+                _ => {}
+            }
+        }
+    }
+    out
+}
+
+pub fn main(args: &[String]) -> i32 {
+    let path = args.first().expect("minimise FILE").clone();
+    let budget: f64 = args.iter().position(|a| a == "--budget-s").and_then(|i| args.get(i + 1)).map_or(60.0, |v| v.parse().unwrap());
+    let mut rf: ReplayFile = crate::load_replay(&path);
+    exec::set_check_property(&rf.property);
+    let mut cx = Ctx {
+        property: rf.property.clone(),
+        class: rf.violation.class.clone(),
+        deadline: Instant::now() + std::time::Duration::from_secs_f64(budget),
+        runs: 0,
+    };
+    // the file must reproduce to begin with
+    let Some(first) = cx.fails(&rf.script, Some(rf.trace.clone())) else {
+        eprintln!("minimise: {path} does not reproduce; left unchanged");
+        return 3;
+    };
+    let before = (size(&rf.script), rf.trace.len());
+    let mut script = rf.script.clone();
+    let mut best = first;
+    // 1. script reduction to a fixed point
+    let mut progress = true;
+    while progress && !cx.out_of_time() {
+        progress = false;
+        for cand in candidates(&script) {
+            if cx.out_of_time() {
+                break;
+            }
+            if size(&cand) >= size(&script) {
+                continue;
+            }
+            if let Some(o) = cx.try_script(&cand, &best.trace, 12) {
+                script = cand;
+                best = o;
+                progress = true;
+                break;
+            }
+        }
+    }
+    // 2. schedule simplification: the shortest prefix of the trace after which "continue the
+    //    current thread, else lowest runnable" still reproduces
+    let full = best.trace.clone();
+    let (mut lo, mut hi) = (0usize, full.len());
+    while lo < hi && !cx.out_of_time() {
+        let mid = (lo + hi) / 2;
+        match cx.fails(&script, Some(full[..mid].to_vec())) {
+            Some(o) => {
+                best = o;
+                hi = mid;
+            }
+            None => lo = mid + 1,
+        }
+    }
+    // 3. final exact trace, replayed once more
+    let exact = best.trace.clone();
+    let Some(fin) = cx.fails(&script, Some(exact.clone())) else {
+        eprintln!("minimise: final replay did not reproduce; left unchanged");
+        return 3;
+    };
+    let v = fin.violations.first().unwrap();
+    rf.script = script;
+    rf.trace = exact;
+    rf.violation = crate::ViolationRec { property: v.property.clone(), class: v.class.clone(), message: v.message.clone(), at_decision: v.at_decision };
+    rf.trace_tail = fin.trace_tail.clone();
+    rf.log = fin.log.clone();
+    rf.minimised = true;
+    rf.replay_mismatches = fin.stats.replay_mismatches;
+    std::fs::write(&path, serde_json::to_string_pretty(&rf).unwrap()).expect("write");
+    println!(
+        "minimised {path}: script {} -> {} bytes, trace {} -> {} decisions, {} candidate runs",
+        before.0,
+        size(&rf.script),
+        before.1,
+        rf.trace.len(),
+        cx.runs
+    );
+    0
 }
